@@ -519,4 +519,89 @@ theorem times_script (t0 : U64) (ms : List (U64 × U64 × U64)) :
     JitterProc.times (script t0 ms) = t0 :: ms.map (·.2.1) := by
   simp only [script, JitterProc.times, middles_flatMap]
 
+/-! ## collections that end with a given measurement -/
+
+theorem genEntropy_used_some (j : Jitter.Rng) (rs : List U64) (v : U64) (j' : Jitter.Rng) (rest : List U64)
+    (h : Jitter.genEntropy j rs = some ((v, j'), rest)) :
+    ∃ used, usedMeas j.rounds rs = some used ∧ v = output j.data used ∧
+      rs.length = rest.length + (1 + 3 * used.length) := by
+  have he := genEntropy_eq_used j rs
+  rw [h] at he
+  rcases hu : usedMeas j.rounds rs with _ | used
+  · rw [hu] at he; cases he
+  · rw [hu] at he
+    simp only [Option.map_some, Option.some.injEq, Prod.mk.injEq] at he
+    obtain ⟨_, hl, _⟩ := usedMeas_length _ _ _ hu
+    refine ⟨used, rfl, he.1, ?_⟩
+    rw [he.2, List.length_drop]; omega
+
+/-- a collection that leaves exactly `rest` unread consumed exactly the readings before `rest` -/
+theorem genEntropy_exact (j : Jitter.Rng) (a rest : List U64) (r : U64 × Jitter.Rng)
+    (h : Jitter.genEntropy j (a ++ rest) = some (r, rest)) : Jitter.genEntropy j a = some (r, []) := by
+  obtain ⟨used, hu, hrun⟩ := genEntropy_prefix j _ r rest h
+  have : a = used := List.append_cancel_right hu
+  have h0 := hrun []
+  rwa [List.append_nil, ← this] at h0
+
+/-- when every reading is consumed, all measurements of the list are used -/
+theorem usedMeas_exact (rounds : Nat) (rs : List U64) (used : List Meas)
+    (hu : usedMeas rounds rs = some used) (hl : rs.length = 1 + 3 * used.length) :
+    used = measurements rs := by
+  obtain ⟨h1, _, h3⟩ := usedMeas_length _ _ _ hu
+  have hm := measurements_length rs (by
+    intro h0; rw [h0] at h1; simp at h1; rw [h1] at h3; simp at h3)
+  rw [h1, List.take_of_length_le (by omega)]
+
+/-- the measurements of `t0 :: (complete measurements) ++ [c, t, e]` -/
+theorem measurements_snoc (t0 : U64) (pre : List U64) (c t e : U64) (hp : pre.length % 3 = 0) :
+    measurements (t0 :: (pre ++ [c, t, e])) =
+      measFrom ⟨t0, 0, 0⟩ pre ++ [(step (ecAfter ⟨t0, 0, 0⟩ pre) t).1] := by
+  rw [measurements_cons, measFrom_append _ _ _ hp]
+  rfl
+
+/-- the last measurement of a completely consumed list (with `rounds ≥ 1`) is an accepted one -/
+theorem usedMeas_last_accepted (rounds : Nat) (hr : 0 < rounds) (rs : List U64) (l : List Meas) (m : Meas)
+    (hu : usedMeas rounds rs = some (l ++ [m])) : m.stuck = false := by
+  unfold usedMeas at hu
+  rcases hm : measurements rs with _ | ⟨prime, ms⟩
+  · rw [hm] at hu; cases hu
+  · rw [hm] at hu
+    dsimp only at hu
+    rcases ht : untilAccepted rounds ms with _ | taken
+    · rw [ht] at hu; cases hu
+    · rw [ht] at hu
+      obtain ⟨n, rfl⟩ : ∃ n, rounds = n + 1 := ⟨rounds - 1, by omega⟩
+      obtain ⟨l0, m0, rfl, hs⟩ := untilAccepted_last ms n taken ht
+      simp only [Option.map_some, Option.some.injEq] at hu
+      have : (prime :: l0) ++ [m0] = l ++ [m] := hu
+      have := (List.append_inj' this rfl).2
+      simp only [List.cons.injEq, and_true] at this
+      rw [← this]; exact hs
+
+/-- **collections whose last consumed measurement has time reading `t`** -/
+theorem genEntropy_last (j : Jitter.Rng) (hr : 0 < j.rounds) (pre : List U64) (c t e : U64) (rest : List U64)
+    (v : U64) (j₁ : Jitter.Rng)
+    (h : Jitter.genEntropy j (pre ++ c :: t :: e :: rest) = some ((v, j₁), rest)) :
+    ∃ t0 pre', pre = t0 :: pre' ∧ pre'.length % 3 = 0 ∧
+      v = output j.data (measFrom ⟨t0, 0, 0⟩ pre' ++ [(step (ecAfter ⟨t0, 0, 0⟩ pre') t).1]) ∧
+      (step (ecAfter ⟨t0, 0, 0⟩ pre') t).1.stuck = false := by
+  have h0 : Jitter.genEntropy j (pre ++ [c, t, e]) = some ((v, j₁), []) := by
+    apply genEntropy_exact j _ rest
+    rw [List.append_assoc]; exact h
+  obtain ⟨used, hu, hv, hl⟩ := genEntropy_used_some j _ v j₁ [] h0
+  simp only [List.length_append, List.length_cons, List.length_nil] at hl
+  obtain ⟨_, _, h1⟩ := usedMeas_length _ _ _ hu
+  match pre, hl, hu, h0 with
+  | [], hl, _, _ => simp at hl; omega
+  | t0 :: pre', hl, hu, h0 =>
+    have hp : pre'.length % 3 = 0 := by simp only [List.length_cons] at hl; omega
+    have hl' : (t0 :: pre' ++ [c, t, e]).length = 1 + 3 * used.length := by
+      simp only [List.length_append, List.length_cons, List.length_nil] at hl ⊢
+      omega
+    have hx := usedMeas_exact _ _ _ hu hl'
+    rw [show t0 :: pre' ++ [c, t, e] = t0 :: (pre' ++ [c, t, e]) from rfl, measurements_snoc _ _ _ _ _ hp] at hx
+    refine ⟨t0, pre', rfl, hp, by rw [hv, hx], ?_⟩
+    rw [hx] at hu
+    exact usedMeas_last_accepted _ hr _ _ _ hu
+
 end Rngs.JitterEntropy
